@@ -390,3 +390,31 @@ contract(
               ("median_ge", "vals.median() > 0.5", "vals.median() < 0.5"),
               ("no_abs", "(vals - 0.5).abs()", "(vals - 0.5)")],
 )
+
+
+# ----------------------------------------------------------------------------- deductive: the heterozygous subset (known finding)
+# The postcondition is the property's ("keeps exactly the germline-heterozygous records"); the pinned code returns the
+# whole table when no record is heterozygous, so `keeps_only_heterozygous` fails on that path with a one-record model
+# (zygosity 1.0).  It is listed in known_findings.txt: the check prints KNOWN-FINDING for it and exits 0.
+from .c_call import CHROM, GENE       # noqa: E402
+
+_VARR = ObjT("VariantArray", data=TabT(index="range", chromosome=CHROM, start=Int, end=Int, ref=Str, alt=Str, zygosity=Real,
+                                       alt_freq=Real), meta=DictT())
+
+contract(
+    "cnvlib/vary.py::VariantArray.heterozygous",
+    params=dict(self=_VARR),
+    returns=ObjT("VariantArray", data=TabT(index="masked", chromosome=CHROM, start=Int, end=Int, ref=Str, alt=Str, zygosity=Real,
+                                           alt_freq=Real), meta=DictT()),
+    requires=[],
+    ensures=[
+        # load_het_snps keeps exactly the heterozygous records (zygosity neither 0 nor 1), in order
+        ("keeps_only_heterozygous", "forall(0, len(result.data), lambda j: let(lambda k: 0 <= k and k < len(self.data) and "
+                                    "self.data.zygosity[k] != 0 and self.data.zygosity[k] != 1 and result.data.start[j] == self.data.start[k] and "
+                                    "result.data.zygosity[j] == self.data.zygosity[k], result.data.index[j]))"),
+        ("keeps_every_heterozygous", "forall(0, len(self.data), lambda k: implies(self.data.zygosity[k] != 0 and self.data.zygosity[k] != 1, "
+                                     "exists(0, len(result.data), lambda j: result.data.index[j] == k)))"),
+    ],
+    props=("C18",), domain="skip",
+    canaries=[("homozygous_alt_kept", "(zygosity != 0.0) & (zygosity != 1.0)", "(zygosity != 0.0)")],
+)
